@@ -151,26 +151,35 @@ Theorem C19_teardown_never_blocks : forall cfg w,
   fd_open (w_st (snd (connection_gone cfg w))) = false /\ lost_fds (w_st (snd (connection_gone cfg w))) = 0.
 Proof. exact teardown_never_blocks. Qed.
 
-(* TightVNC extension, every message type (list, download, upload, upload data, upload done, upload
-   failed, download cancel, create directory), every sequence of them, every name, every outcome of
-   creat/write: nothing at all unless registered, switched on and not view-only ... *)
-Theorem C19_tight_every_entry_gated : forall v reg en vo root st ms,
-  tight_gate reg en vo = false -> tight_run v reg en vo root st ms = [].
-Proof. exact tight_every_entry_gated. Qed.
+(* TightVNC extension, every message type (list incl. its per-entry stat, download, upload, upload whose
+   name is cut short, upload data, upload done, upload failed, download cancel, create directory,
+   connection dropped), the gate (registered && switched on && not view-only) evaluated PER MESSAGE:
+   with the gate closed no handler runs, the client is dropped (close hook) ... *)
+Theorem C19_tight_every_entry_gated : forall v root st m,
+  t_alive st = true -> tight_step_g v root st (false, m) = drop st.
+Proof. exact tight_gate_closed. Qed.
 
-(* ... C19_tight_every_entry_confined: and every path handed to the file system (stat, opendir, open,
-   creat, utime, unlink, mkdir) is root ++ "/" ++ rel with rel never climbing above the root.  Holds for
-   the tree (fix commits 9f956a4 and 7654ac8) *)
-Theorem C19_tight_every_entry_confined : forall reg en vo root ms st,
-  name_ok root st ->
-  Forall (fun o => below_root root (tfs_path o)) (tight_run v_tight_tree reg en vo root st ms).
+(* ... and a dropped connection handles nothing any more *)
+Theorem C19_tight_dropped_is_silent : forall v root st ms, t_alive st = false -> tight_run v root st ms = [].
+Proof. exact tight_dead_is_silent. Qed.
+
+(* C19_tight_every_entry_confined, full statement
+     forall root ms st, name_ok root st -> Forall (op_ok root) (tight_run v_tight_tree root st ms)
+   (every path handed to stat/opendir/open/creat/utime/unlink/mkdir - incl. the unlink of the close hook
+   and the per-entry stat of a listing - is root ++ "/" ++ rel with rel never above the root, and no path
+   buffer overflows) is FALSE for the tree: *)
+Theorem C19_tight_every_entry_confined_refuted : exists root ms o,
+  In o (tight_run v_tight_tree root tstate0 ms) /\ ~ op_ok root o.
+Proof. exact tight_every_entry_confined_refuted. Qed.      (* F19c: close hook unlinks an unconverted name *)
+
+Theorem C19_tight_listing_overflow_refuted : exists root ms,
+  In TOverflow (tight_run v_tight_tree root tstate0 ms).
+Proof. exact tight_listing_overflow_refuted. Qed.          (* F19d: fullpath[PATH_MAX] strcpy/strcat *)
+
+(* it holds for the flow with notes/fix_C19_4.diff and notes/fix_C19_5.diff *)
+Theorem C19_tight_every_entry_confined_fixed : forall root ms st,
+  name_ok root st -> Forall (op_ok root) (tight_run v_tight_fixed root st ms).
 Proof. exact tight_every_entry_confined. Qed.
-
-(* before 7654ac8 (F19b) the name of a refused upload request stayed in rtcp->rcft.rcfu.fName and was
-   unlinked / utimed by a later message; regression witness corpus/C19/f19b_stale_upload_name.script *)
-Theorem C19_tight_every_entry_confined_prefix_refuted : exists root ms o,
-  In o (tight_run v_tight_prefix true true false root tstate0 ms) /\ ~ below_root root (tfs_path o).
-Proof. exact tight_every_entry_confined_refuted. Qed.
 
 (* the extension's command line (rfbTightProcessArg / InitFileTransfer / SetFtpRoot): for every passwd
    entry and file system ([env]), every prior state and every further arguments:
